@@ -249,7 +249,7 @@ def dropPairAt : List Str → Nat → List Str
 
 /-- `process_add_test` -/
 def processAddTest (st : AggState) (cmd : Cmd) (doc : Str) : AggState :=
-  let params := cmd.singles
+  let params := argTexts cmd.args      -- all arguments in source order, parenthesised groups included (repair D19)
   if params.length < 2 then st.logError
   else match scanName params 0 ([], none) with
     | none => st.logError
